@@ -49,6 +49,7 @@ func RTTypes() []reflect.Type {
 		universe.TInt8, universe.TInt16, universe.TInt32, universe.TInt64, universe.TUint, universe.TUint8, universe.TUint16, universe.TUint32, universe.TUint64, universe.TUintptr, universe.TFloat32,
 		universe.TNumber, universe.TRaw, universe.TTime, universe.TEmpty,
 		reflect.TypeOf(universe.UJ{}), reflect.TypeOf(universe.UT{}), reflect.TypeOf(universe.Plain{}), reflect.TypeOf(universe.RecP{}),
+		reflect.TypeOf(universe.EmbPtr{}), reflect.TypeOf(universe.EmbCase{}), reflect.TypeOf(universe.EmbCaseV{}),
 	}
 	seen := map[reflect.Type]bool{}
 	var out []reflect.Type
